@@ -15,7 +15,7 @@ Notation BC := (BC rules F).
 (* the row_ok_changed of SpecInv2: a row stays true when every checked dependency either keeps its value or was recomputed after
    the row was built *)
 Lemma rowok_step s s' k : res_of s' k = res_of s k ->
-  (forall d, In d (deps s k) -> d_order d = false ->
+  (forall d, In d (deps s k) -> d_order d = false -> d_single d = false ->
      (stored s' (d_key d) = stored s (d_key d) /\ cAt s (d_key d) <= cAt s' (d_key d)) \/ bAt s k < cAt s' (d_key d)) ->
   rowok s k -> rowok s' k.
 Proof.
@@ -24,9 +24,9 @@ Proof.
   assert (Eb : bAt s' k = bAt s k) by (unfold bAt; now rewrite Hr).
   exists v. split; [unfold stored; now rewrite Hr|]. split; [exact Ho|]. split; [rewrite Ed; exact Hm|].
   intros Hf'.
-  assert (Hsame : forall d, In d (deps s k) -> d_order d = false -> stored s' (d_key d) = stored s (d_key d) /\ cAt s (d_key d) <= bAt s k).
-  { intros d Hd Ho'. pose proof (Hf' d) as Hx. rewrite Ed, Eb in Hx. specialize (Hx Hd Ho'). destruct (H d Hd Ho') as [[E1 E2]|E]; [split; auto; lia|lia]. }
-  destruct Hc as [Hfst Hrec]; [intros d Hd Ho'; apply (Hsame d Hd Ho')|].
+  assert (Hsame : forall d, In d (deps s k) -> d_order d = false -> d_single d = false -> stored s' (d_key d) = stored s (d_key d) /\ cAt s (d_key d) <= bAt s k).
+  { intros d Hd Ho' Hs'. pose proof (Hf' d) as Hx. rewrite Ed, Eb in Hx. specialize (Hx Hd Ho' Hs'). destruct (H d Hd Ho' Hs') as [[E1 E2]|E]; [split; auto; lia|lia]. }
+  destruct Hc as [Hfst Hrec]; [intros d Hd Ho' Hs'; apply (Hsame d Hd Ho' Hs')|].
   unfold ImplInc1.concl in *. cbn zeta in *.
   assert (Hreq : map (stored s') (r_req (rules k)) = map (stored s) (r_req (rules k))).
   { apply map_ext_in. intros x Hx. apply (Hsame (mkDep x false false)); auto. apply Hrec. apply in_or_app. now left. }
@@ -50,11 +50,11 @@ Proof. unfold is_in_progress, idle. destruct (kind_of s k); try discriminate; in
 Lemma BC_change (X : key -> bool) s s' : is_epoch s' = is_epoch s -> (forall k, ri_cancelled (rinfo_of s' k) = false) ->
   (forall k, X k = false -> res_of s' k = res_of s k /\ kind_of s' k = kind_of s k) ->
   (forall k, X k = true -> unsettled s k /\ is_in_progress s' k = true /\ bAt s' k = bAt s k /\
-                    (bAt s' k <> 0 -> res_sig (res_of s' k) = r_sig (rules k)) /\ (forall d, In d (deps s' k) -> d_single d = false)) ->
+                    (bAt s' k <> 0 -> res_sig (res_of s' k) = r_sig (rules k))) ->
   (forall k, X k = true -> (stored s' k = stored s k /\ cAt s' k = cAt s k) \/ cAt s' k = is_epoch s) ->
   BC s -> BC s'.
 Proof.
-  intros He Hnc H1 H2 H3 [C1 C2 C3 C4 C5 C6 C7 C8].
+  intros He Hnc H1 H2 H3 [C1 C2 C3 C4 C5 C6 C7].
   assert (Hidle : forall k, idle s' k -> X k = false).
   { intros k Hi. destruct (X k) eqn:Hx; auto. destruct (H2 k Hx) as (_ & Hp & _). exfalso. now apply (in_progress_not_idle s' k Hp). }
   assert (Hcur : forall k, X k = false -> (curk s' k <-> curk s k)).
@@ -77,13 +77,13 @@ Proof.
     + destruct (H2 k Hx) as ((_ & _ & Hp) & _ & Hb & _). rewrite Hb. intros Hbe. exfalso. apply Hp. now apply C4.
     + destruct (H1 k Hx) as [Hr Hk]. unfold bAt. rewrite Hr, Hk. apply C4.
   - intros k. destruct (X k) eqn:Hx.
-    + now destruct (H2 k Hx) as (_ & _ & _ & Hs & _).
+    + now destruct (H2 k Hx) as (_ & _ & _ & Hs).
     + destruct (H1 k Hx) as [Hr _]. unfold bAt. rewrite Hr. apply C5.
   - intros k Hi Hb. pose proof (Hidle k Hi) as Hx. destruct (H1 k Hx) as [Hr Hk].
     assert (Hi0 : idle s k) by (unfold idle in *; now rewrite <- Hk).
     assert (Hb0 : bAt s k <> 0) by (unfold bAt in *; now rewrite <- Hr).
     apply (rowok_step s s' k Hr); [|now apply C6].
-    intros d Hd Hord. destruct (Hmono (d_key d)) as [H|H]; [now left|].
+    intros d Hd Hord _. destruct (Hmono (d_key d)) as [H|H]; [now left|].
     (* the dependency was recomputed in this epoch: the row is older, unless it is complete - then its dependencies are, too *)
     destruct (N.eq_dec (bAt s k) (is_epoch s)) as [Eb|Eb].
     + assert (Hck : curk s k) by (split; [now apply C4|exact Eb]).
@@ -92,9 +92,6 @@ Proof.
   - intros k Hc d Hd. pose proof (HcurX k Hc) as Hx. destruct (H1 k Hx) as [Hr Hk]. apply (Hcur k Hx) in Hc.
     assert (Hd0 : In d (deps s k)) by (unfold deps in *; now rewrite <- Hr). pose proof (C7 k Hc d Hd0) as Hcd.
     apply (Hcur _ (HcurX0 _ Hcd)). exact Hcd.
-  - intros k. destruct (X k) eqn:Hx.
-    + now destruct (H2 k Hx) as (_ & _ & _ & _ & Hs).
-    + destruct (H1 k Hx) as [Hr _]. unfold deps. rewrite Hr. apply C8.
 Qed.
 
 Variable rank : key -> nat.
